@@ -23,6 +23,12 @@ func init() {
 			"(R03.3) every attribute value written after `=` is the result of the one quoting routine html.EscapeAttrVal. The trait tables themselves are decided under C17. Not covered: whitespace significance per document, optional-tag inference in every parent context, `</script` inside script text.",
 		Run: runC03,
 	})
+	mutant(&Mutant{Name: "c03-attribute-pointers-taken-while-peeking", Property: "C03", File: "html/buffer.go",
+		Old: "\tfor i := z.pos; i < z.pos+n; i++ {\n\t\tattr := &z.buf[i]\n", New: "\tfor i := 0; i < n; i++ {\n\t\tattr := z.Peek(i)\n",
+		Rule: "R03.5", Construct: "token pointers are not kept"})
+	mutant(&Mutant{Name: "c03-peek-reuse-without-compaction", Property: "C03", File: "html/buffer.go",
+		Old: "\t\t} else {\n\t\t\tbuf = z.buf\n\t\t}\n\t\tcopy(buf[:d], z.buf[z.pos:])\n", New: "\t\t\tcopy(buf[:d], z.buf[z.pos:])\n\t\t} else {\n\t\t\tbuf = z.buf\n\t\t}\n",
+		Rule: "R03.5", Construct: "unread tokens moved"})
 	mutant(&Mutant{Name: "c03-raw-template-rewritten", Property: "C03", File: "html/html.go",
 		Old: "\t\t\t} else if inPre || rawTagHash != 0 {", New: "\t\t\t} else if inPre {",
 		Rule: "R03.1", Construct: "raw text"})
@@ -44,6 +50,7 @@ func init() {
 }
 
 func runC03(c *Ctx) {
+	defer c.tokenBuffer("R03.5", "html")
 	pk := c.pkg("R03", "html")
 	if pk == nil {
 		return
